@@ -244,6 +244,33 @@ theorem warn_wrapper_source_is_model (w : Warn) (n : Nat) (bs : Bytes) :
       simp [wexec, wstep, wrun, warnW, warnWH, selfCall, WSt.ofWarn, WSt.toWarn, Warn.step, Warn.writeHeader, isInfo]
   · simp [wexec, wstep, wrun, warnF, WSt.ofWarn, WSt.toWarn, Warn.step]
 
+/-- **wrapper_runs_are_source_runs.** For EVERY sequence of handler calls (the history dimension of the wrapper state
+machines: Write before WriteHeader, several WriteHeader calls, writes in pieces, …) running the methods' statement
+lists call after call gives the wrapper state the model's `Strict.run` / `Warn.run` give. -/
+theorem wrapper_runs_are_source_runs (ops : List Op) :
+    (∀ w : Strict, ops.foldl Strict.srcStep w = Strict.run w ops) ∧
+    (∀ w : Warn, ops.foldl Warn.srcStep w = Warn.run w ops) := by
+  have hs : ∀ (w : Strict) (op : Op), Strict.srcStep w op = w.step op := by
+    intro w op
+    cases op with
+    | writeHeader n => exact (strict_wrapper_source_is_model w n []).1
+    | write bs => exact (strict_wrapper_source_is_model w 0 bs).2.1
+    | _ => rfl
+  have hw : ∀ (w : Warn) (op : Op), Warn.srcStep w op = w.step op := by
+    intro w op
+    cases op with
+    | writeHeader n => exact (warn_wrapper_source_is_model w n []).1
+    | write bs => exact (warn_wrapper_source_is_model w 0 bs).2.1
+    | flush => exact (warn_wrapper_source_is_model w 0 []).2.2
+    | _ => rfl
+  constructor
+  · induction ops with
+    | nil => intro w; rfl
+    | cons op ops ih => intro w; simp only [List.foldl_cons, Strict.run, hs] at *; exact ih _
+  · induction ops with
+    | nil => intro w; rfl
+    | cons op ops ih => intro w; simp only [List.foldl_cons, Warn.run, hw] at *; exact ih _
+
 /-- `isInformational` is the expression `isInfo` transcribes (http.StatusSwitchingProtocols = 101) -/
 theorem isInformational_as_modelled :
     flowOf middlewareFlow "isInformational" =
